@@ -24,6 +24,7 @@ type Exp struct {
 	Echo    string   // expected echo
 	EchoOK  bool     // whether Echo is asserted
 	EchoNum bool     // compare echo numerically at float precision
+	EchoEsc string   // json rule, value of at most 256 bytes: the echo is the value in SOME escaped form (compared after dropping escapes)
 	F32     bool     // the echoed value is a float32
 	Members []string // group members (paths)
 	GKind   string   // either | botheq
@@ -376,10 +377,28 @@ func ReMsg(item string) string {
 	return ""
 }
 
+// dropEscapes removes everything an escaping step may add, consume or rewrite (backslashes, the
+// characters that are written as letters, and those letters), so that a text and any escaped form
+// of it compare equal while another text does not.
+func dropEscapes(s string) string {
+	return strings.Map(func(r rune) rune {
+		switch r {
+		case '\\', '\'', '"', 0, '\n', '\r', '\t', 0x1a, '0', 'n', 'r', 't', 'Z':
+			return -1
+		}
+		return r
+	}, s)
+}
+
 // SetEcho fills the expected echo of a value clause.
 func SetEcho(e *Exp, fv reflect.Value) {
 	if e.Key == "json" {
-		return // the echo of json is escaped / truncated: not asserted
+		// the echo of json is escaped, and replaced by a placeholder beyond 256 bytes: up to 256 bytes it is
+		// the input all the same (how exactly it is escaped is not asserted)
+		if fv.Kind() == reflect.String && len(fv.String()) <= 256 {
+			e.EchoEsc = "x" + fv.String()
+		}
+		return
 	}
 	switch fv.Kind() {
 	case reflect.Float32, reflect.Float64:
@@ -564,6 +583,9 @@ func (e *Exp) Matches(a Clause) (bool, string) {
 			} else if a.Echo != e.Echo {
 				return false, fmt.Sprintf("echo %q, want %q", a.Echo, e.Echo)
 			}
+		}
+		if e.EchoEsc != "" && dropEscapes(a.Echo) != dropEscapes(e.EchoEsc[1:]) {
+			return false, fmt.Sprintf("echo %q is not (an escaped form of) the input %q", a.Echo, e.EchoEsc[1:])
 		}
 		return true, ""
 	case "cfg", "nonsupport":
